@@ -293,3 +293,56 @@ def valid_task(t):
         transitions=st.transitions, executions=st.executions, max_depth=0, verdicts=st.verdicts, refkinds=st.refkinds,
         nontrivial=[hash(x) for x in distinct], samples=st.samples, capped=None, completions=0, layout_runs=0, closer_runs=0,
         harness_errors=st.harness_errors, violations=viols)
+
+
+# ---------------------------------------------------------------------------------------------
+# E3: comment bodies (the lexer's comment rules against the strict reference lexer)
+
+COMMENT_CHARS = ["*", "/", "a", " ", "\n", "#", '"']
+
+
+def comment_tasks(tier, oracles, post=None):
+    maxlen = 4 if tier == "quick" else 6
+    return [dict(oracles=list(oracles), post=post, maxlen=maxlen, part=i, parts=16) for i in range(16)]
+
+
+def comment_task(t):
+    import itertools
+
+    orcs = [ORACLES[o] for o in t["oracles"]]
+    post = POSTS[t["post"]] if t.get("post") else None
+    st = E.Stats()
+    viols = []
+    n = 0
+    req = b'require ["fileinto"];\n'
+    for L in range(0, t["maxlen"] + 1):
+        for tup in itertools.product(COMMENT_CHARS, repeat=L):
+            n += 1
+            if n % t["parts"] != t["part"]:
+                continue
+            body = "".join(tup)
+            if "*/" in body or body.endswith("*") and False:
+                continue
+            b = body.encode("utf-8")
+            texts = [
+                req + b'fileinto "a"; /*' + b + b'*/ keep; /* z */ stop;',
+                req + b'/*' + b + b'*/\nif true { /* x **/ keep; }\n/**' + b + b'**/ discard;',
+            ]
+            if "\n" not in body:
+                texts.append(req + b'keep; #' + b + b'\nstop; # ' + b + b'\r\ndiscard;')
+            for text in texts:
+                case = E.execute((), text=text, want_config=False)
+                st.executions += 1
+                st.transitions += 1
+                st.verdicts[case.obs.verdict] = st.verdicts.get(case.obs.verdict, 0) + 1
+                st.refkinds[case.v.kind] = st.refkinds.get(case.v.kind, 0) + 1
+                for o in orcs:
+                    for v in o(case):
+                        v["signature"] = v["signature"][:2] + ["COMMENT-BODY"] + v["signature"][3:]
+                        viols.append(v)
+                if post is not None:
+                    viols.extend(post(case, st) or ())
+    return dict(
+        scn="comments", depth=t["maxlen"], first=None, states=st.refkinds.get("VALID", 0), transitions=st.transitions, executions=st.executions,
+        max_depth=0, verdicts=st.verdicts, refkinds=st.refkinds, nontrivial=[hash((t["part"], k)) for k in st.verdicts], samples=[], capped=None,
+        completions=0, layout_runs=0, closer_runs=0, harness_errors=st.harness_errors, violations=viols)
